@@ -25,6 +25,7 @@ template <class Tag> void scan(Tag tag){
   reader_t reader = make_scanline_reader(name, tag);
   std::vector<unsigned char> buf(reader._scanline_length);
   reader.read(buf.data(), 0); reader.skip(buf.data(), 0);
+  auto it = reader.begin(); auto e = reader.end(); for (; it != e; ++it) { unsigned char* row = *it; (void)row; }
 }
 void inst(){
   rgb8_image_t a; gray8_image_t g;
